@@ -188,6 +188,28 @@ func genSmtFacts() (string, error) {
 	}
 	fmt.Fprintf(&b, "/-- `Store.Root()` builds (and `Commit()` persists) the commitment tree under this prefix -/\ndef rootWritesTreeUnder : String := %q\n", w)
 	fmt.Fprintf(&b, "/-- `Store.NewReadOnly(v)` builds the tree that serves `GetProof` from this prefix -/\ndef readOnlyReadsTreeFrom : String := %q\n", r)
+	// NewReadOnly(): is the `sc` of the returned &Store{…} a fresh NewDefaultSMT(NewTxn(…)) (and nothing else)?
+	roFresh, roSc := false, ""
+	ast.Inspect(smtFindFunc(st, "Store", "NewReadOnly").Body, func(n ast.Node) bool {
+		cl, ok := n.(*ast.CompositeLit)
+		if !ok || g.ExprText(cl.Type) != "Store" {
+			return true
+		}
+		for _, e := range cl.Elts {
+			if kv, ok := e.(*ast.KeyValueExpr); ok && g.ExprText(kv.Key) == "sc" {
+				roSc = g.ExprText(kv.Value)
+				if call, ok := kv.Value.(*ast.CallExpr); ok && g.ExprText(call.Fun) == "NewDefaultSMT" && len(call.Args) == 1 {
+					inner, ok := call.Args[0].(*ast.CallExpr)
+					roFresh = ok && g.ExprText(inner.Fun) == "NewTxn"
+				}
+			}
+		}
+		return false
+	})
+	if roSc == "" {
+		return "", fmt.Errorf("(*Store).NewReadOnly: field sc of the &Store{…} literal not found")
+	}
+	fmt.Fprintf(&b, "/-- `Store.NewReadOnly(v)`: the `sc` of the store it returns is a fresh `NewDefaultSMT(NewTxn(…))` over the database\n(not an object shared with the live store) -/\ndef readOnlyBuildsFreshCommitment : Bool := %v\n", roFresh)
 	// does VerifyProof validate the proof's node keys (the repaired algorithm) or reconstruct a throw-away tree?
 	vp := smtFindFunc(smt, "SMT", "VerifyProof")
 	if vp == nil {
@@ -375,6 +397,20 @@ func genSmtFacts() (string, error) {
 		hashesAlways = valueAssigns == 1 && good == 1 && keyOK
 	}
 	fmt.Fprintf(&b, "/-- `valueOpToSMTNode`: the only assignment to the leaf value is `crypto.Hash(operation.value)`, the key is `newNodeKey(crypto.Hash(operation.key), s.keyBitLength)` -/\ndef leafCommitsToHashOfValue : Bool := %v\n", hashesAlways)
+	// Store.Root(): what is handed to the tree? expected: exactly the pending state operations `s.ss.txn.ops`
+	rootArg := ""
+	if rf := smtFindFunc(st, "Store", "Root"); rf != nil {
+		ast.Inspect(rf.Body, func(n ast.Node) bool {
+			if call, ok := n.(*ast.CallExpr); ok && strings.HasSuffix(g.ExprText(call.Fun), ".CommitParallel") && len(call.Args) == 1 {
+				rootArg = strings.ReplaceAll(g.ExprText(call.Args[0]), " ", "")
+			}
+			return true
+		})
+	}
+	if rootArg == "" {
+		return "", fmt.Errorf("(*Store).Root: call of CommitParallel not found")
+	}
+	fmt.Fprintf(&b, "/-- `Store.Root()` commits `s.sc.CommitParallel(%s)`: the tree receives exactly the pending state operations, unfiltered -/\ndef rootCommitsPendingOpsUnfiltered : Bool := %v\n", rootArg, rootArg == "s.ss.txn.ops")
 	// Store.Copy(): which fields of the clone are taken over from the source store as they are (shared objects)?
 	cpFd := smtFindFunc(st, "Store", "Copy")
 	if cpFd == nil {
